@@ -26,7 +26,7 @@ ANCHORS = [("leuvenmapmatching/matcher/base.py", "BaseMatching.next"),
            ("leuvenmapmatching/matcher/simple.py", "SimpleMatcher.logprob_obs")]
 FLOORS = {"states_rescored": 12000, "nonemitting_states_rescored": 1500, "paths_rescored": 3000, "paths_with_nonemitting": 600,
           "paths_after_widen": 300, "paths_after_extend": 300, "family:distance": 600, "family:simple": 600, "family:simple_nodes": 600,
-          "second_order_paths": 800, "latlon_paths": 500, "paths_with_unconnected_move": 20}
+          "second_order_paths": 800, "latlon_paths": 500, "paths_with_unconnected_move": 20, "tiny_scale_cases": 300}
 ASSUMPTIONS = ["geometry (projection points, relative positions, dist_obs) is taken as reported after self-consistency predicates; its truth is C05/C13",
                "log-probabilities compared at 1e-9*max(1,|x|)"]
 
@@ -45,6 +45,15 @@ def gen_case(rng, i, tier):
                 linked.append([list(a), list(b)])
                 linked.append([list(b), list(a)])
             case["map"]["linked"] = linked
+    if not case["map"].get("latlon") and rng.random() < 0.12:
+        # tiny coordinate units (e.g. raw degrees used as y-x): everything scaled exactly by 2^-k
+        sc = 2.0 ** -rng.choice([10, 14, 17])
+        case["map"] = gen.transform_map(case["map"], sc)
+        case["trace"] = gen.transform_trace(case["trace"], sc)
+        for key in ("obs_noise", "obs_noise_ne", "dist_noise", "max_dist", "max_dist_init"):
+            if case["cfg"].get(key) is not None:
+                case["cfg"][key] *= sc
+        case["tiny"] = True
     case["ops"] = gen.gen_history(rng, len(case["trace"]), case["cfg"]["width"], allow_cwd=False, max_ops=4)
     if not case.get("large") and not case["map"].get("latlon"):
         gen.add_pre_trace(rng, case)
@@ -63,6 +72,8 @@ def shard_teardown(ctx):
 
 def check_case(ctx, case):
     ctx.state["stamps"].reset()
+    if case.get("tiny"):
+        ctx.count("tiny_scale_cases")
     mp = build.make_inmem(case["map"])
     mt = build.make_matcher(mp, case["cfg"])
     model = MapModel(case["map"])
@@ -94,6 +105,12 @@ def check_case(ctx, case):
             ctx.count("paths_with_nonemitting")
         if len(mt.lattice_best) >= 3:
             big[0] = True
+        # "observation distance ... exactly what the documented model assigns": the reported distance / position of every
+        # emitting state against the map's own geometry (exact-rational / vector reference)
+        for kind, text in oracles.cutoffs_and_nearest(mt, model, mt.path):
+            if kind.startswith("reported-") or kind == "node-distance-wrong":
+                ctx.violation(f"C02:geometry:{kind}:{'latlon' if model.latlon else 'planar'}", case, f"after operation #{i} {op}: {text}")
+                break
         for kind, text in oracles.rescore_path(mt, fam, model, counters, stamps=ctx.state["stamps"]):
             order = "second-order" if case["cfg"]["agb"] else "first-order"
             if "stale-child" in kind:
